@@ -28,11 +28,11 @@ def run(ctx):
                         "the reactor clock used by StorageServer", "lease-less containers are crafted by the driver (no API produces them)",
                         "one share per bucket; a cycle runs in one slice because time does not advance"]
     if ctx.quick:
-        consts = dict(Now=NOW, Duration=31 * DAY, Overrides="{%d, %d}" % (10 * DAY, 60 * DAY),
+        consts = dict(Now=NOW, Duration=31 * DAY, Overrides="{%d, %d, %d}" % (0, 10 * DAY, 60 * DAY),
                       Cutoffs="{%d, %d}" % (calendar.timegm((2033, 4, 28, 0, 0, 0)), calendar.timegm((2033, 2, 7, 0, 0, 0))),
                       Before="{1}", After="{0, 1}", Old=400 * DAY, Recent=DAY, MaxLeases=5, Shift=2 * DAY)
     else:
-        consts = dict(Now=NOW, Duration=31 * DAY, Overrides="{%d, %d, %d, %d}" % (DAY, 10 * DAY, 31 * DAY, 60 * DAY),
+        consts = dict(Now=NOW, Duration=31 * DAY, Overrides="{%d, %d, %d, %d, %d}" % (0, DAY, 10 * DAY, 31 * DAY, 60 * DAY),
                       Cutoffs="{%d, %d, %d}" % (calendar.timegm((2033, 5, 18, 0, 0, 0)), calendar.timegm((2033, 4, 28, 0, 0, 0)),
                                                 calendar.timegm((2033, 2, 7, 0, 0, 0))),
                       Before="{1, 3600}", After="{0, 1, 3600}", Old=400 * DAY, Recent=600, MaxLeases=5, Shift=2 * DAY)
